@@ -76,7 +76,12 @@ def run(run_, pkg, tier):
         key = "C04-i/graph-works-on-its-own-vertices/%s" % cls
         if run_.wants(key):
             tasks.append((key, "C04-i-own-vertices", graph_own_vertices_obligation(cls), "%s:%d" % (cfn._gs_module, cfn.lineno)))
-    record(run_, tasks, run_tasks(pkg, tasks))
+    results = run_tasks(pkg, tasks)
+    from ..algebra import across_thresholds
+    from ..assembly import directed_assembly_tasks
+    results, xt, xr = across_thresholds(run_, pkg, tasks, results, directed_assembly_tasks("C04-ii/assembly", "C04-ii-gauss-newton-step", "%s:%d" % (gfn._gs_module, gfn.lineno)))
+    record(run_, tasks, results)
+    record(run_, xt, xr)
     run_.floor("C04 obligations", len(tasks) if run_.only is None else 24, 24)
     if run_.only is None:
         def sel(f):
